@@ -269,6 +269,9 @@ class Mem:
         s.n+=1; s.objs[name]={'size':size,'bytes':{},'ch':{},'arr':z3.Array(name+'_mem',z3.BitVecSort(64),z3.BitVecSort(8))}; return Ptr(name,0)
     def store(s,p,val,nbytes):
         if p.obj not in s.objs: raise OOB('store through null/unknown pointer',p.obj,p.off,nbytes,0)
+        if not is_c(p.off):
+            _t=z3.simplify(p.off)
+            if z3.is_bv_value(_t): p=Ptr(p.obj,_t.as_long())
         if s.watch and p.obj in s.watch: s.watch[p.obj](p,nbytes)
         if p.obj[0]=='@' and TRACK_GLOBALS[0] and not s.objs[p.obj].get('tls'):
             GLOBAL_WRITES.append((p.obj, getattr(s,'where','')))
@@ -295,6 +298,9 @@ class Mem:
         if nbytes>o.get('maxch',0): o['maxch']=nbytes
     def load(s,p,nbytes):
         if p.obj not in s.objs: raise OOB('load through null/unknown pointer',p.obj,p.off,nbytes,0)
+        if not is_c(p.off):
+            _t=z3.simplify(p.off)
+            if z3.is_bv_value(_t): p=Ptr(p.obj,_t.as_long())
         if s.rwatch and p.obj in s.rwatch: s.rwatch[p.obj](p,nbytes)
         o=s.objs[p.obj]
         if p.obj in s.symload and ('arr' in o or not is_c(p.off)):
